@@ -6,7 +6,13 @@ whose JSON encoding is `j`, computed by kind from the GENERATED struct tables; t
 `gob.Encoder`/`Decoder` on Swagger, Operation, Parameter, Schema, Response by the `gob` correspondence on every
 run (the model has to predict the encoding after transport, losses included).
 
-The full statement `gobJ K j = j` is FALSE on the current tree (known findings K-C14-1, K-C14-2); proved here:
+The unconditional statement `gobJ K j = j` is FALSE on the current tree (known findings K-C14-1, K-C14-2).
+For WHOLE DOCUMENTS of every kind (`transport_preserves_safe_documents`, from `Codec/GobSafe.lean`):
+
+    GobSafe j  →  gobJ K j = j
+
+where `GobSafe` = no empty array anywhere and no member whose value is the number 0 — the two exclusions are the
+two findings. Component lemmas and the witnesses of the findings:
 * `payload_survives` — a free-form value (default / example / enum / examples / extension values / unknown schema
   keywords, nested mixtures with nulls and empty objects) without an empty array survives exactly;
   `empty_array_becomes_null` is the witness of K-C14-2;
@@ -17,6 +23,7 @@ The full statement `gobJ K j = j` is FALSE on the current tree (known findings K
   so the statement for a whole document follows member by member under `GobSafe`-style hypotheses.
 -/
 import SpecModel.Codec.Gob
+import SpecModel.Codec.GobSafe
 
 namespace SpecModel.Props.C14
 open SpecModel SpecModel.Codec
@@ -75,5 +82,23 @@ theorem members_kept (f : Json → Json) (ms : List (String × Json)) (h : ∀ m
   | cons a rest ih =>
     have ha := h a (List.mem_cons_self ..)
     simp [List.map_cons, ha, ih (fun m hm => h m (List.mem_cons_of_mem _ hm))]
+
+/-! ### Whole documents -/
+
+/-- **gob transport preserves every document without an empty array and without a member equal to 0**, for every
+kind and any nesting depth -/
+theorem transport_preserves_safe_documents (k : String) (j : Json) (hs : GobSafe j) : gobJ k j = j :=
+  gobJ_safe k j hs
+
+/-- non-vacuity: an operation with nested kinds, security requirements with an empty scope list (an empty array of
+strings would be excluded, so the scope list here is non-empty), extensions and validations -/
+example : GobSafe (.obj [("operationId", .str "op"), ("security", .arr [.obj [("k", .arr [.str "s"])]]),
+    ("parameters", .arr [.obj [("name", .str "p"), ("in", .str "query"), ("minimum", .num 1), ("x-a", .obj [])]]),
+    ("responses", .obj [("200", .obj [("description", .str "")])])]) := by
+  simp [GobSafe, NoEmptyArr, NoEmptyArrL, NoEmptyArrM, ZeroFree, ZeroFreeL, ZeroFreeM]
+
+/-- the hypothesis is needed: the two findings are exactly its two exclusions -/
+example : ¬ GobSafe (.obj [("minimum", .num 0)]) := by simp [GobSafe, ZeroFree, ZeroFreeM]
+example : ¬ GobSafe (.obj [("default", .arr [])]) := by simp [GobSafe, NoEmptyArr, NoEmptyArrM]
 
 end SpecModel.Props.C14
